@@ -1,18 +1,73 @@
 #!/usr/bin/env python3
-"""prints the per-property 'as built' table (markdown) from the evidence files of the last run"""
-import json, os
+"""Refreshes the generated tables of DESIGN.md section 7 (between <!-- TABLE:x --> markers) from the evidence files of the
+last run, /repo's git log, known_findings.json and seeded/*/meta.json.   usage: tools/design_table.py [--write]"""
+import json, os, re, subprocess, sys
 V = os.path.dirname(os.path.dirname(os.path.abspath(__file__)))
-print("| prop | level claimed | functions under contract | obligations (discharged) | frame clauses | bounded evaluations (distinct) | open findings reported |")
-print("|---|---|---|---|---|---|---|")
-M = {c["property_id"]: c for c in json.load(open(V + "/MANIFEST.json"))["checks"]}
-for i in range(1, 21):
-    pid = "C%02d" % i
-    p = V + "/evidence/%s.json" % pid
-    if not os.path.exists(p):
-        continue
-    ev = json.load(open(p))
-    c = ev["coverage"]
-    fr = c.get("discharged_by", {}).get("frame-analysis", 0)
-    fns = [f for f in c.get("functions_under_contract", []) if f != "frame"]
-    print("| %s | %s | %d | %d (%d) | %d | %s (%s) | %d |" % (pid, M[pid]["level_claimed"]["category"], len(fns), c["obligations"], c["discharged"], fr,
-          c.get("evaluations", "-"), c.get("distinct_nontrivial", "-"), len(c.get("known_findings_reported", []))))
+
+
+def status():
+    out = ["| prop | level claimed | functions under contract | obligations discharged / generated | of which frame clauses | bounded evaluations (distinct) | open findings reported |",
+           "|---|---|---|---|---|---|---|"]
+    M = {c["property_id"]: c for c in json.load(open(V + "/MANIFEST.json"))["checks"]}
+    for i in range(1, 21):
+        pid = "C%02d" % i
+        p = V + "/evidence/%s.json" % pid
+        if not os.path.exists(p) or pid not in M:
+            continue
+        c = json.load(open(p))["coverage"]
+        fr = c.get("discharged_by", {}).get("frame-analysis", 0)
+        fns = [f for f in c.get("functions_under_contract", []) if f != "frame" and not f.startswith("frame:")]
+        nfn = len(fns) if fr == 0 or len(fns) < 50 else len([f for f in fns if "." in f and not f.startswith("parser.") and not f.startswith("ddl_parser.")])
+        out.append("| %s | %s | %d | %d / %d | %d | %s (%s) | %d |" % (pid, M[pid]["level_claimed"]["category"], len(fns), c["discharged"], c["obligations"], fr,
+                   c.get("evaluations", "-"), c.get("distinct_nontrivial", "-"), len(c.get("known_findings_reported", []))))
+    return "\n".join(out)
+
+
+def fixes():
+    log = subprocess.run(["git", "-C", "/repo", "log", "--format=%h %s", "--reverse"], capture_output=True, text=True).stdout.splitlines()
+    kf = {f.get("commit"): f for f in json.load(open(V + "/known_findings.json"))["findings"] if f.get("status") == "fixed"}
+    out = ["| commit | subject | property | what failed |", "|---|---|---|---|"]
+    for l in log:
+        h, subj = l.split(" ", 1)
+        if subj.startswith("fix:"):
+            f = kf.get(h, {})
+            what = f.get("text", "").split(h, 1)[-1].strip() if f else ""
+            out.append("| %s | %s | %s | %s |" % (h, subj[4:].strip(), f.get("property", "?"), what))
+    return "\n".join(out)
+
+
+def findings():
+    out = ["| property | how it is matched | finding |", "|---|---|---|"]
+    for f in json.load(open(V + "/known_findings.json"))["findings"]:
+        if f.get("status") == "open":
+            m = f.get("match", {})
+            how = "witness class `%s`" % m["witness_class"] if "witness_class" in m else "obligation `%s`" % m.get("obligation_prefix")
+            out.append("| %s | %s | %s |" % (f["property"], how, f["text"].replace("|", "\\|")))
+    return "\n".join(out)
+
+
+def seeded():
+    out = ["| seeded change | property | what it changes / needs (first line of the author's note) | verdict | first reporting obligation |", "|---|---|---|---|---|"]
+    d = V + "/seeded"
+    for sid in sorted(os.listdir(d)):
+        m = json.load(open(os.path.join(d, sid, "meta.json")))
+        note = [l for l in (m.get("needs_to_manifest") or "").splitlines() if l.strip()]
+        first = note[0].lstrip("# ").strip()[:140] if note else ""
+        db = m.get("detected_by") or {}
+        fl = db.get("first_line") or ""
+        ob = re.search(r"obligation=(\S+)", fl)
+        out.append("| %s | %s | %s | %s | %s |" % (sid, m["property"], first.replace("|", "/"), db.get("verdict", "not run"), ("`%s`" % ob.group(1)[:110]) if ob else ""))
+    return "\n".join(out)
+
+
+TABLES = {"status": status, "fixes": fixes, "findings": findings, "seeded": seeded}
+if __name__ == "__main__":
+    if "--write" in sys.argv:
+        s = open(V + "/DESIGN.md").read()
+        for k, f in TABLES.items():
+            s = re.sub(r"(<!-- TABLE:%s -->\n).*?(<!-- /TABLE:%s -->)" % (k, k), lambda mm: mm.group(1) + f() + "\n" + mm.group(2), s, flags=re.S)
+        open(V + "/DESIGN.md", "w").write(s)
+        print("DESIGN.md tables refreshed")
+    else:
+        for k, f in TABLES.items():
+            print("##", k); print(f())
